@@ -15,9 +15,16 @@
    aggregation filter (real aggregator, with/without drop-raw and cache) and sends aggregate lines
    through Table.DispatchAggregate; MatcherTrace.tla re-evaluates Accept on the NAME for every
    recorded observation.
-3. Match cache: AggCache.tla (Lookup / Advance / Expire; invariant cached = fresh) is model-checked,
-   and lookup / clock-jump / clean-up histories run on aggregator.NewMocked(cache=true) with an
-   injected clock are validated by MatcherTrace.tla.
+3. Match cache: AggCache.tla (Lookup / Advance / Expire; the cached value is the pair (accepted,
+   output name); invariant cached = fresh in both components; the deviations "cache keyed by the first
+   character" and "an empty output name means rejected" must be rejected by TLC) is model-checked, and
+   lookup / clock-jump / clean-up histories run on aggregator.NewMocked(cache=true, with and without
+   drop-raw) with an injected clock are validated by MatcherTrace.tla: AddMaybe's decision at every
+   lookup and, at every flush, the count per (output name, quantum).  The (filter, template) pairs are
+   enumerated by TLC (MatcherGen family "cache") together with the output name of every name; they
+   include pairs whose output name is EMPTY for accepted names (empty group, group that takes no part,
+   reference to a group that does not exist, "$1_sum").  Self-check of the oracle: TLC's OutKey must
+   agree with Go's regexp FindSubmatchIndex + Expand (disagreement = machinery error, exit 2).
 """
 import json, os, random
 from checks import mtlib
@@ -42,6 +49,14 @@ def compare_matcher(ctx, names, cases, res, stats):
                 k = mtlib.diffbits(mine, theirs)[0]
                 raise Machinery("ORACLE ERROR: Matcher!Search disagrees with Go regexp on %s=%r name=%r (spec %s, RE2 %s)" % (
                     which, f[which], names[k], mine[k], theirs[k]))
+        if "keys" in c:
+            # the two readings of a regex in the specification agree, and its submatch / template semantics is RE2's
+            if c["sub"] != c["sre"]:
+                raise Machinery("ORACLE ERROR: Matcher!Submatch and Matcher!Search disagree on whether %r matches" % f["regex"])
+            if r.get("re2keys") != c["keys"]:
+                k = [j for j in range(len(names)) if r.get("re2keys", [None] * len(names))[j] != c["keys"][j]][0]
+                raise Machinery("ORACLE ERROR: Matcher!OutKey disagrees with Go regexp Expand on regex=%r template=%r name=%r (spec %r, RE2 %r)" % (
+                    f["regex"], c["tmpl"], names[k], c["keys"][k], r.get("re2keys", [None] * len(names))[k]))
         exp = c["expect"]
         stats["pairs"] += len(names)
         if "0" in exp and "1" in exp:
@@ -89,34 +104,56 @@ def site_events(ctx, names, sitecases, rng, per_case_other):
     return out, nsens
 
 
-def cache_histories(ctx, names, sitecases, rng, n, nops):
-    pool = [c for c in sitecases if c["f"]["regex"]]
+def cache_histories(ctx, names, ccases, rng, n, nops):
+    """histories of lookups / clock jumps / clean-ups for the (filter, template) pairs TLC enumerated:
+    every pair with and without drop-raw; the names of a history are drawn from three classes read off
+    TLC's verdicts: accepted with an EMPTY output name, accepted with a non-empty one, rejected"""
+    pool = list(ccases)
+    rng.shuffle(pool)
+    n = max(n, 2 * len(pool))
+    off = rng.randrange(2)
     hs = []
     nn = [x for x in names if x != ""]
+    stats = dict(empty_key_names=0, degenerate_histories=0, repeated_lookups=0)
     for h in range(n):
-        c = rng.choice(pool)
+        c = pool[h % len(pool)]
+        drop = (h // len(pool) + off) % 2 == 0
         wait = rng.choice([1, 2, 3])
-        # a handful of names, some accepted some not, some sharing a first character
-        acc = [x for i, x in enumerate(names) if x and c["expect"][i] == "1"]
-        rej = [x for i, x in enumerate(names) if x and c["expect"][i] == "0"]
-        mine = rng.sample(acc, min(2, len(acc))) + rng.sample(rej, min(2, len(rej)))
+        idx = [i for i, x in enumerate(names) if x]
+        acc_e = [names[i] for i in idx if c["expect"][i] == "1" and c["keys"][i] == ""]
+        acc_k = [names[i] for i in idx if c["expect"][i] == "1" and c["keys"][i] != ""]
+        rej = [names[i] for i in idx if c["expect"][i] == "0"]
+        mine = rng.sample(acc_e, min(2, len(acc_e))) + rng.sample(acc_k, min(2, len(acc_k))) + rng.sample(rej, min(2, len(rej)))
         if len(mine) < 4:
             mine += rng.sample(nn, 4 - len(mine))
         mine = list(dict.fromkeys(mine))
+        nempty = sum(1 for x in mine if x in acc_e)
+        stats["empty_key_names"] += nempty
+        stats["degenerate_histories"] += 1 if nempty else 0
         clock = 1000
         ops = [dict(op="clock", t=clock)]
+        seen_since = set()        # names looked up since the last clock jump (an entry cannot have expired in between)
+        lastname = None
         for _ in range(nops):
             x = rng.random()
             if x < 0.6:
-                ops.append(dict(op="lookup", name=rng.choice(mine), ts=clock))
+                name = lastname if lastname is not None and rng.random() < 0.25 else rng.choice(mine)
+                if name in seen_since:
+                    stats["repeated_lookups"] += 1
+                seen_since.add(name)
+                lastname = name
+                ops.append(dict(op="lookup", name=name, ts=clock))
             elif x < 0.8:
-                clock += rng.choice([1, wait, 40 * wait, 101 * wait, 150 * wait, 300 * wait])
+                step = rng.choice([1, wait, 40 * wait, 101 * wait, 150 * wait, 300 * wait])
+                clock += step
+                if step > 100 * wait:
+                    seen_since = set()
                 ops.append(dict(op="clock", t=clock))
             else:
                 ops.append(dict(op="tick", t=clock + wait))
         ops.append(dict(op="tick", t=clock + wait))
-        hs.append(dict(h=h, f=c["f"], ast=c["ast"], wait=wait, ops=ops))
-    return hs
+        hs.append(dict(h=h, f=c["f"], ast=c["ast"], tmpl=c["tmpl"], tast=c["tast"], drop=drop, wait=wait, ops=ops))
+    return hs, stats
 
 
 def split_hist(events):
@@ -141,10 +178,12 @@ def run(ctx):
 
     # ---- 0. the cache state machine: cached answer = fresh answer, and the invariant is not vacuous
     ctx.tlc("AggCacheMC", "AggCache_mc.cfg", consts=dict(CBug="none"), workers=4, timeout=1500)
-    r = ctx.tlc("AggCacheMC", "AggCache_mc.cfg", consts=dict(CBug="first_char"), workers=4, timeout=1500,
-                expect_ok=False, count=False)
-    if r["violated"] not in ("CachedIsFresh", "EntriesFresh"):
-        raise Machinery("a cache keyed by the first character is not rejected by AggCache's invariants (vacuity); log %s" % r["log"])
+    for bug, what in (("first_char", "a cache keyed by the first character"),
+                      ("empty_key_means_reject", "a cache that takes an empty remembered output name for 'not accepted'")):
+        r = ctx.tlc("AggCacheMC", "AggCache_mc.cfg", consts=dict(CBug=bug), workers=4, timeout=1500,
+                    expect_ok=False, count=False)
+        if r["violated"] not in ("CachedIsFresh", "EntriesFresh"):
+            raise Machinery("%s is not rejected by AggCache's invariants (vacuity); log %s" % (what, r["log"]))
 
     # ---- 1. matcher decision cases
     if "matcher" not in parts:
@@ -164,9 +203,13 @@ def run(ctx):
     ctx.log("matcher: %d (filter, name) pairs compared, %d wrong verdicts" % (stats["pairs"], stats["bad_match"]))
 
     # ---- 2. use sites
-    snames, scases = mtlib.gen_matcher_cases(ctx, ["a", "b", ".", "1"], ctx.pick(3, 3), ["sites"], 1, tag="gen_sites")
-    sres = mtlib.run_matcher(ctx, snames, scases, "sites")          # the pool itself on the plain matcher (and RE2 self-check)
-    compare_matcher(ctx, snames, [dict(c, sre="", snre="") for c in scases], sres, stats)
+    snames, allcases = mtlib.gen_matcher_cases(ctx, ["a", "b", ".", "1"], ctx.pick(3, 3), ["sites", "cache"], 1, tag="gen_sites")
+    sres = mtlib.run_matcher(ctx, snames, allcases, "sites")        # the pools themselves on the plain matcher (and RE2 self-check)
+    compare_matcher(ctx, snames, [c if c["fam"] == "cache" else dict(c, sre="", snre="") for c in allcases], sres, stats)
+    scases = [c for c in allcases if c["fam"] == "sites"]
+    ccases = [c for c in allcases if c["fam"] == "cache"]      # aggregation (filter, output template) pairs
+    if not any(c["expect"][i] == "1" and c["keys"][i] == "" for c in ccases for i in range(len(snames)) if snames[i]):
+        raise Machinery("no (filter, template) pair with an empty output name for an accepted name was generated")
     sub = scases if not q else [c for i, c in enumerate(scases) if (i + ctx.seed) % 3 == 0]
     sev, nsens = site_events(ctx, snames, sub, rng, ctx.pick(2, 6))
     if q and len(sev) > 9000:
@@ -196,7 +239,10 @@ def run(ctx):
     site_ok = ne
 
     # ---- 3. cache histories
-    hs = cache_histories(ctx, snames, scases, rng, ctx.pick(60, 800), ctx.pick(30, 60))
+    hs, hstats = cache_histories(ctx, snames, ccases, rng, ctx.pick(60, 800), ctx.pick(30, 60))
+    if not hstats["degenerate_histories"] or not hstats["repeated_lookups"]:
+        raise Machinery("cache histories lack repeated lookups of names with an empty output name: %s" % hstats)
+    ctx.log("cache: %d histories over %d (filter, template) pairs, %s" % (len(hs), len(ccases), hstats))
     hf = ctx.write_ndjson("mt_cachehist.ndjson", hs)
     cf = ctx.out + "/mt_cachetrace.ndjson"
     ctx.go_test("mt", run="^TestCache$", env=dict(VERIF_MT_CACHEHIST=hf, VERIF_MT_CACHETRACE=cf), timeout=3000)
@@ -205,19 +251,28 @@ def run(ctx):
         if "go" in e:
             e["go"] = json.dumps(e["go"], sort_keys=True)
     nlook = sum(1 for e in cev if e["ev"] == "lookup")
-    njump = sum(1 for h in hs for a, b in zip(h["ops"], h["ops"][1:]) if False)
     if nlook == 0:
         raise Machinery("dead cache driver")
 
     def sig_cache(b, i):
-        return "aggregation-cache/" + b[i]["ev"]
+        return "aggregation-cache/%s/%s" % ("dropraw" if b[0]["drop"] else "keepraw", b[i]["ev"])
 
     def rej_cache(b, i, sig, inv):
-        ctx.violation(sig, "caching aggregator with filter %s: event %s contradicts the fresh answer (history %s)" % (
-            b[0]["go"], json.dumps(b[i]), b[0]["h"]), dict(history=b[:i + 1][-40:]))
+        e = b[i]
+        if e["ev"] == "lookup":
+            what = "AddMaybe(%r) returned %s" % ("".join(e["name"]), e["got"])
+        elif e["ev"] == "tick":
+            what = "the flush produced (output name, quantum, count) = %s for the points offered since the last flush" % (
+                [("".join(o["k"]), o["q"], o["c"]) for o in e["out"]],)
+        else:
+            what = "event %s" % json.dumps(e)
+        looked = ["".join(x["name"]) for x in b[:i + 1] if x["ev"] == "lookup"]
+        ctx.violation(sig, "caching aggregator (dropRaw=%s) with filter %s and output template %r: %s, which contradicts the answer "
+                      "computed afresh from the names (history %s, names looked up so far: %s)" % (
+                          b[0]["drop"], b[0]["go"], b[0]["tmpl"], what, b[0]["h"], looked[-12:]), dict(history=b[:i + 1][-40:]))
 
     cb, ce, crej = mtlib.validate_blocks(ctx, "MatcherTrace", "MatcherTrace.cfg", split_hist(cev), "cache_trace.ndjson",
-                                         sig_cache, rej_cache)
+                                         sig_cache, rej_cache, max_rounds=6)
 
     # ---- 4. the binding is real: one corrupted observation must be rejected exactly there
     if not ctx.violations:
@@ -233,6 +288,13 @@ def run(ctx):
                     e["got"] = not e["got"]
                     return i
         mtlib.selftest(ctx, "MatcherTrace", "MatcherTrace.cfg", cev[:400], corrupt_cache, "flipped cached answer", "cache")
+
+        def corrupt_key(ev):
+            for i, e in enumerate(ev):
+                if e["ev"] == "tick" and i > 8 and e["out"]:
+                    e["out"][0]["k"] = e["out"][0]["k"] + ["x"]
+                    return i
+        mtlib.selftest(ctx, "MatcherTrace", "MatcherTrace.cfg", cev[:400], corrupt_key, "altered output name", "cachekey")
         ctx.cov["binding_selftests"] = "passed"
 
     cov = ctx.cov
@@ -242,16 +304,20 @@ def run(ctx):
     cov["site_value_sensitive_triples"] = nsens
     cov["cache_histories"] = len(hs)
     cov["cache_lookups"] = nlook
+    cov["cache_configs"] = len(ccases)
+    cov["cache_histories_with_empty_output_names"] = hstats["degenerate_histories"]
+    cov["cache_repeated_lookups_before_expiry"] = hstats["repeated_lookups"]
     cov["rule"] = ("(filter, name) pairs: filters = TLC-enumerated regex ASTs (atoms, classes, quantified atoms, concatenations, "
                    "alternations; unanchored, ^, $, ^$ shapes; as regex and as notRegex) + all 2^6 option subsets over small pools, "
                    "names = all strings up to length %d over %d characters; non-trivial = pairs of filters whose verdict vector is "
                    "neither all-accept nor all-reject.  Use sites: %d events at blacklist/route/destination(all,first)/aggregation"
-                   "(keep,drop,cache)/aggregate-routing sites, each re-evaluated by MatcherTrace.tla; %d cache histories." % (
-                       ctx.pick(3, 4), 4, len(events), len(hs)))
+                   "(keep,drop,cache)/aggregate-routing sites, each re-evaluated by MatcherTrace.tla; %d cache histories over %d "
+                   "TLC-enumerated (filter, output template) pairs, each with and without drop-raw." % (
+                       ctx.pick(3, 4), 4, len(events), len(hs), len(ccases)))
     big = max(cases, key=lambda c: len(c["f"]["regex"]) + len(c["f"]["notRegex"]))
     ctx.sample(dict(filter=big["f"], names=names[:12], expect=big["expect"][:12]))
     ctx.sample(dict(site_event={k: events[0][k] for k in ("site", "go", "name", "v", "t", "obs")}))
-    ctx.sample(dict(cache_history=dict(filter=hs[0]["f"], wait=hs[0]["wait"], ops=hs[0]["ops"][:10])))
+    ctx.sample(dict(cache_history=dict(filter=hs[0]["f"], template=hs[0]["tmpl"], drop_raw=hs[0]["drop"], wait=hs[0]["wait"], ops=hs[0]["ops"][:10])))
     ctx.assumptions += [
         "metric names are ASCII without newline (the regex semantics of '.' and negated classes in the specification assume it)",
         "destinations are observed through their conn_down_no_spool counters (endpoint 127.0.0.1:1 refuses connections) after a Flush() round trip",
